@@ -281,6 +281,24 @@ pub fn cmd_text_fields(a: &HashMap<String, String>) -> i32 {
                 }
                 let step = if thorough || enc.len() + 6 >= f.n || k < 6 { 1 } else { 7 };
                 if let Some(p) = packet_with_text(f.kind, f.field, &text) {
+                    // C03 on frames whose text is not ASCII: one well-formed frame in either size mode (or a loud refusal)
+                    for mode in ["U", "C"] {
+                        let ev = match try_encode(mode, &p) {
+                            Ok(frame) => {
+                                let (consumed, back) = match standalone(mode, &frame) {
+                                    (crate::frames::Verdict::Pkt { consumed, .. }, Some(q)) => (consumed as i64, crate::abs::kind_of(&q).to_string()),
+                                    (crate::frames::Verdict::DecodeErr { consumed }, _) => (consumed as i64, "decode-error".to_string()),
+                                    _ => (-1, "none".to_string()),
+                                };
+                                json!({"ev": "Frame", "kind": f.kind, "name": f.field, "mode": mode, "flavour": fl, "enclen": enc.len(), "res": "ok",
+                                       "bytes": frame, "consumed": consumed, "back": back})
+                            },
+                            Err(e) => json!({"ev": "Frame", "kind": f.kind, "name": f.field, "mode": mode, "flavour": fl, "enclen": enc.len(),
+                                             "res": if e.starts_with("err") { "err" } else { "panic" }, "bytes": [], "consumed": 0, "back": "none"}),
+                        };
+                        let _ = writeln!(w, "{}", ev);
+                        n += 1;
+                    }
                     match try_encode("U", &p) {
                         Ok(frame) => {
                             let field: Vec<u8> = if f.rule.starts_with("fixed") { frame[off.min(frame.len())..(off + f.n).min(frame.len())].to_vec() } else { frame[off.min(frame.len())..].to_vec() };
